@@ -347,6 +347,10 @@ class Interp:
                         return ("f", fv)
             except (OverflowError, ValueError, struct.error):
                 pass
+        if base == "Rem" and ty in ("f32", "f64") and isinstance(a, tuple) and a[0] == "f" and isinstance(b, tuple) and b[0] == "f" and b[1] != 0.0:
+            import math as _m
+            if _m.isfinite(a[1]) and _m.isfinite(b[1]):
+                return ("f", _m.fmod(a[1], b[1]))          # the IEEE remainder of two constants is exact
         if "WithOverflow" not in op:
             if base == "Mul" and (a == z or b == z) and ty in ("f32", "f64"):
                 return z
@@ -996,13 +1000,14 @@ def m_int_op(name):
     """saturating / wrapping / abs_diff / pow on integer constants"""
     def f(it, args, callee, depth):
         vals = [deref_all(it, a) for a in args]
-        if not all(isinstance(v, int) for v in vals):
-            if all(isinstance(v, int) or (isinstance(v, tuple) and v[0] in ("sym", "symop")) for v in vals) and len(vals) == 2:
-                return ("symop", name, vals[0], vals[1])          # symbolic operands: an opaque operation of that name
-            return NotImplemented
         import re as _re3
         c_ = callee or {}
         m = _re3.search(r"<impl ([iu](?:8|16|32|64|128|size))>", " ".join([c_.get("path", ""), c_.get("full", "")]))
+        if not all(isinstance(v, int) for v in vals):
+            if all(isinstance(v, int) or (isinstance(v, tuple) and v[0] in ("sym", "symop")) for v in vals) and len(vals) in (1, 2):
+                # symbolic operands: an opaque operation of that name on that integer type
+                return ("symop", name + (":" + m.group(1) if m else ""), vals[0], vals[1] if len(vals) == 2 else None)
+            return NotImplemented
         ty = m.group(1) if m else "usize"
         bits = INT_BITS.get(ty, 64)
         signed = ty.startswith("i")
@@ -1020,6 +1025,8 @@ def m_int_op(name):
             r = {"wrapping_sub": lambda: a - b, "wrapping_add": lambda: a + b, "wrapping_mul": lambda: a * b}[name]()
         elif name == "abs_diff":
             r = abs(a - b)
+        elif name == "unsigned_abs":
+            r = abs(a)
         else:
             return NotImplemented
         return r & ((1 << bits) - 1)
@@ -1346,6 +1353,7 @@ STD_MODELS = [
     (">::wrapping_add", m_int_op("wrapping_add")),
     (">::wrapping_mul", m_int_op("wrapping_mul")),
     (">::abs_diff", m_int_op("abs_diff")),
+    (">::unsigned_abs", m_int_op("unsigned_abs")),
     ("core::ops::try_trait::Try::branch", m_try_branch),
     ("core::ops::try_trait::FromResidual::from_residual", m_from_residual),
     ("core::ops::index::Index::index", m_index),
